@@ -451,6 +451,21 @@ def s_fusion3(tier, rng, evs=EVS):
                         out.append(case(ev, 'eval', None, f % ((u % a) + op + (u % b))))
     return out
 
+def s_emptyavg(tier, rng, evs=('f64', 'i64', 'decimal', 'number')):
+    """the only legal empty list, avg(), in every argument position of every variadic call, directly and nested inside
+       operators, brackets, fixed-arity calls and further lists"""
+    out = []
+    for ev in evs:
+        inner = ['avg()', '(avg())', '1+avg()', 'abs(avg())', '-avg()', 'avg()+1', 'avg()(3)', '2avg()', gen.F2[ev][0] + '(2,avg())', 'max(avg(),3)', 'min(2,avg())', 'avg(avg())', 'avg(1,avg())']
+        for f in gen.FV[ev]:
+            for x in inner:
+                for args in ([x], [x, '5'], ['5', x], ['5', x, '2'], ['5', '2', x], [x, x], ['5', 'max(1,' + x + ')'], ['4', '2', 'abs(' + x + ')-1']):
+                    out.append(case(ev, 'eval', None, f + '(' + ','.join(args) + ')'))
+        for x in inner:
+            for c in ['%s', '1+%s', '(%s)', '2*%s', '%s^2', gen.F2[ev][0] + '(%s,2)', gen.F2[ev][0] + '(2,%s)']:
+                out.append(case(ev, 'eval', None, c % x))
+    return out
+
 def s_aggmix(tier, rng, evs=('f64', 'i64', 'decimal', 'number')):
     """aggregates whose arguments mix failing, non-finite / NaN-valued and ordinary arguments in every order"""
     sp = {'f64': ['w(-1)', '0/0', '1/0', '-1/0', 'sqrt(-4)', '3', '(-0.0)'], 'number': ['w(-1)', '0/0', '1/0', '1%0', 'sqrt(-4)', '3', '7'],
@@ -513,7 +528,7 @@ def s_maxlen(tier, rng, evs=EVS, mode='eval'):
 
 def run_C01(tier, rng, stats):
     cs = (s_oppool(tier, rng) + s_pairs2(tier, rng) + s_longpad(tier, rng) + s_tokseq(tier, rng) + s_tokseq_full(tier, rng) + s_chars(tier, rng) + s_wf(tier, rng, nq=250, nt=2500) +
-          s_mut(tier, rng, nq=250, nt=2500) + s_badlits(tier, rng) + s_aggfail(tier, rng) + s_aggmix(tier, rng) + s_longlits(tier, rng) + s_maxlen(tier, rng) + s_loops(tier, rng))
+          s_mut(tier, rng, nq=250, nt=2500) + s_badlits(tier, rng) + s_aggfail(tier, rng) + s_aggmix(tier, rng) + s_emptyavg(tier, rng) + s_longlits(tier, rng) + s_maxlen(tier, rng) + s_loops(tier, rng))
     stats['rule'] = ('all token sequences <= %d (small alphabet) and <= %d (full alphabet), all strings <= %d chars over a lexer alphabet, '
                      'grammar-directed random expressions x placeholder pool, near-miss mutants, malformed literals, aggregates around failing '
                      'arguments, looping constructs over extreme operands; all five evaluators, debug and release; non-trivial = model outcome is not a lex/parse error'
@@ -640,7 +655,7 @@ def run_C02(tier, rng, stats):
     return res
 
 def run_C03(tier, rng, stats):
-    cs = (s_tokseq(tier, rng, qlen=4, tlen=5) + s_tokseq_full(tier, rng) + s_chars(tier, rng) + s_nearmiss_chars(tier, rng) + s_keywords(tier, rng) + s_badlits(tier, rng) +
+    cs = (s_tokseq(tier, rng, qlen=4, tlen=5) + s_tokseq_full(tier, rng) + s_chars(tier, rng) + s_nearmiss_chars(tier, rng) + s_keywords(tier, rng) + s_badlits(tier, rng) + s_emptyavg(tier, rng) +
           s_wf(tier, rng, nq=300, nt=3000) + s_mut(tier, rng, nq=400, nt=4000) +
           s_tokseq(tier, rng, mode='ast', qlen=3, tlen=4) + s_chars(tier, rng, mode='tokens') + s_longlits(tier, rng, mode='tokens') + s_longlits(tier, rng) + s_maxlen(tier, rng))
     stats['rule'] = ('all token sequences <= %d over a representative alphabet incl. a foreign character and a foreign keyword, all strings <= 3/4 chars, '
@@ -720,6 +735,13 @@ def run_C05(tier, rng, stats):
             cs.append(case('f64', 'eval', f2w(x), f + '(@)'))
             cs.append(case('f64', 'eval', f2w(x), '-' + f + '(-@)'))
     cs += s_fusion(tier, rng, evs=['f64'], only=C05_F1 + ['(', 'pow', 'mod', '⌊', '⌈'])
+    # remainder and the rounding functions on the same operand relations at every binade (fmod is exactly scale invariant under
+    # powers of two; products and sign tests inside a re-implementation underflow / overflow far from the boundary values)
+    for k in range(-1070, 1021, 10):
+        p = f2w(2.0 ** k)
+        for e in ['@%(@/10)', '@%(@/3)', '@%(@/7)', '(3*@)%(@/10)', '@%(@*0.1)', 'mod(@,@/10)', '-@%(@/10)', '(7*@)%(@*0.3)', '@%(@/1000000000000000000)',
+                  'floor(@/(@/10))', 'round(@*2.5/@)', 'trunc((3*@)/(@*0.7))', 'ceil(@/(@*3))']:
+            cs.append(case('f64', 'eval', p, e))
     cs += [case('f64', 'eval', f2w(x), e) for x in pool for e in ['-@', '--@', '-(-@)', '0-@', 'pi*@', 'e^@', '@^0.5', 'pow(@,2)', 'mod(@,3)', '⌊@⌋', '⌈@⌉']]
     stats['rule'] = ('random trees over + - * / % unary minus ^ abs floor ceil trunc round sqrt pi e literals @ brackets with operands from the boundary pool '
                      '(subnormals, 2^53 and 2^63 neighbours, huge/tiny literals, NaN/inf/-0 placeholders), plus every operator on all pool pairs; bit-exact')
@@ -954,6 +976,20 @@ def violation_search(pid, tier, rng, stats, disagreements, rep):
     """a proof obligation or the tie broke: look for a concrete input on which the implementation
     contradicts the specification side (the model with the committed tables)"""
     found = []
+    if pid == 'C17':
+        # conditional compilation / an evaluator changed: compare the subsets on the constructs that reach the changed code
+        import focus
+        ch = dict(rep.get('evaluator_changes') or {})
+        for f in rep.get('cfg_sites_changed', []):
+            m = re.match(r'eval_(\w+)/', f)
+            if m and m.group(1) in EVS and m.group(1) not in ch:
+                ch[m.group(1)] = {'arms': [], 'other_changed': True, 'new_literals': []}
+        extra = focus.focused_cases(ch, rng, limit=40000) if ch and 'error' not in ch else []
+        C17_EXTRA[:] = [c for c in extra if c[1] == 'eval']
+        try:
+            return run_C17(tier, rng, {})['violations']
+        finally:
+            C17_EXTRA[:] = []
     try:
         if not rep.get('same_as_committed', True) or not os.path.exists(os.path.join(vlib.ROOT, 'driver/model_runner')):
             SPEC_RUNNER[0] = build_spec_runner()
@@ -1653,7 +1689,7 @@ def run_C11(tier, rng, stats):
             for e in ['med(@,@)', 'avg(@,@)', 'med(0,@,@,1)', 'min(@,@)', 'max(@,@)', 'med(@,@+@)', 'avg(@,@,@)', 'med(@,-@)', 'avg(@,-@)', 'med(@,0)', 'avg(@,1)',
                       'min(@,-@)', 'max(-@,@)', 'med(@,@,@)', 'med(1,@,@,@)', 'max(@,0,1)', 'min(0,@,1)']:
                 cs.append(case(ev, 'eval', ph, e))
-    cs += s_aggfail(tier, rng) + s_aggmix(tier, rng)
+    cs += s_aggfail(tier, rng) + s_aggmix(tier, rng) + s_emptyavg(tier, rng)
     stats['rule'] = ('min max avg med/median (f64 i64 decimal number) and gcd lcm (i64): all argument lists of length <= %d over a pool with duplicates, negatives, zeros and extremes, '
                      'random lists up to 8, all permutations of short lists (a sample beyond); empty lists, dangling commas, failing arguments; '
                      'values also compared with an exact reference computed from the multiset (Python fractions)' % maxlen)
@@ -2010,6 +2046,7 @@ def run_C16(tier, rng, stats):
 PROPS['C16'] = {}
 
 # ============================================================================ C17 feature subsets
+C17_EXTRA = []
 def run_C17(tier, rng, stats):
     import subprocess, shutil
     feats = ['eval_f64', 'eval_i64', 'eval_decimal', 'eval_complex', 'eval_number']
@@ -2026,6 +2063,7 @@ def run_C17(tier, rng, stats):
             corpus.append(c)
     corpus = corpus[::7]
     corpus += s_wf('quick', rng, nq=120 if tier == 'quick' else 400)
+    corpus += C17_EXTRA
     corpus = list(dict.fromkeys(corpus))
     lines = ['\t'.join(c) for c in corpus]
     base = vlib.run_impl(lines, 'debug')
@@ -2229,6 +2267,22 @@ def run_C10(tier, rng, stats):
         add('decimal', f + '(@)', '-0/2', ('f1', f, (-0.0,)))
     add('decimal', '@!', '-0/0', ('fact', '!', (-0.0,)))
     add('decimal', '@!', '-0/3', ('fact', '!', (-0.0,)))
+    # eval_decimal: ties and near-ties with the largest mantissas at every scale (x + 0.5 no longer fits 96 bits there)
+    MAXM = 79228162514264337593543950335
+    for sc in range(1, 29):
+        base = MAXM // 10 ** sc
+        for ip in sorted(set([base, base - 1, 7, 0])):
+            for d in range(-5, 6):
+                mnt = ip * 10 ** sc + 5 * 10 ** (sc - 1) + d
+                if not 0 <= mnt <= MAXM:
+                    continue
+                t = str(mnt).rjust(sc + 1, '0')
+                lit = t[:-sc] + '.' + t[-sc:]
+                for f in ['round', 'floor', 'ceil', 'trunc']:
+                    for a in (lit, '(-' + lit + ')'):
+                        c = case('decimal', 'eval', None, f + '(' + a + ')')
+                        if c not in meta:
+                            cs.append(c); meta[c] = ('model-only', '', ())
     pool_cases = [c for c in s_funcgrid(tier, rng, evs=('f64', 'number', 'decimal')) + s_oppool(tier, rng) + s_pairs2(tier, rng, evs=['f64', 'i64', 'decimal', 'number']) if any(ch.isalpha() or ch in '!°' for ch in dec_expr(c[3]).replace('@', ''))]
     for c in pool_cases:
         if c not in meta:
